@@ -22,7 +22,7 @@ Theorem ip_value : forall (prune : vlist -> vlist),
   (forall l e, In e (prune l) -> In e l) ->
   (forall l, l <> [] -> prune l <> []) ->
   (forall S l b, l <> [] -> wfl S l -> nonneg b -> length b = S -> vbest (prune l) b == vbest l b) ->
-  forall m h b, wf_pomdp m -> obs_clean m ->
+  forall m h b, wf_pomdp1 m -> obs_clean m ->
     nonneg b -> length b = nS (pm m) ->
     vbest (last (ip_run prune m h) []) b == EV m h b.
 Proof.
@@ -32,7 +32,7 @@ Qed.
 Print Assumptions ip_value.
 
 (* The same for the executable instance that the correspondence check runs (pointwise pruning). *)
-Theorem ip_value_pw : forall m h b, wf_pomdp m -> obs_clean m ->
+Theorem ip_value_pw : forall m h b, wf_pomdp1 m -> obs_clean m ->
   nonneg b -> length b = nS (pm m) ->
   vbest (last (ip_run prune_pw m h) []) b == EV m h b.
 Proof. exact (ip_value prune_pw prune_pw_sub prune_pw_ne prune_pw_env). Qed.
@@ -60,7 +60,7 @@ Print Assumptions ip_schedule_covers.
    POMDP, every valid reward bound maxR (ANY sign), every horizon and normalised belief, the value
    returned is the exact expectimax value and the recorded action attains it — provided no
    reachable branch has probability in (0, 1e-6] (the code skips branches below its tolerance). *)
-Theorem rtbss_value : forall m maxR, wf_pomdp m ->
+Theorem rtbss_value : forall m maxR, wf_pomdp1 m ->
   (forall s a, (s < nS (pm m))%nat -> (a < nA (pm m))%nat -> Rw m s a <= maxR) ->
   forall h b, nonneg b -> length b = nS (pm m) -> qsum b == 1 -> rtbss_clean m h b ->
     fst (rtbss_sim m maxR h b) == EV m h b /\
@@ -74,7 +74,7 @@ Theorem EV_homogeneous : forall m n c t, 0 <= c -> EV m n (vsc c t) == c * EV m 
 Proof. exact EV_scale. Qed.
 Print Assumptions EV_homogeneous.
 
-Theorem belief_mass_conservation : forall m, wf_pomdp m -> forall t a, (a < nA (pm m))%nat ->
+Theorem belief_mass_conservation : forall m, wf_pomdp1 m -> forall t a, (a < nA (pm m))%nat ->
   qsum (map (fun o => mass m (tau_step m t a o)) (seq 0 (nO m))) == mass m t.
 Proof. exact mass_conservation. Qed.
 Print Assumptions belief_mass_conservation.
@@ -86,12 +86,12 @@ Definition ex_pomdp : pomdp :=
               R := [ [1; -1]; [0; 2] ]; gam := 3#4 |};
      nO := 2; Ob := [ [[1; 0]; [1#2; 1#2]]; [[3#4; 1#4]; [0; 1]] ] |}.
 
-Example ex_hypotheses : wf_pomdp ex_pomdp /\ obs_clean ex_pomdp /\ ops_ok (nO ex_pomdp) = true /\
+Example ex_hypotheses : wf_pomdp1 ex_pomdp /\ obs_clean ex_pomdp /\ ops_ok (nO ex_pomdp) = true /\
   nonneg [1#2; 1#2] /\ ~ (EV ex_pomdp 2 [1#2; 1#2] == 0) /\
   rtbss_clean ex_pomdp 3 [1#2; 1#2] /\ (forall s a, (s < 2)%nat -> (a < 2)%nat -> Rw ex_pomdp s a <= 2).
 Proof.
   split; [| split; [| split; [| split; [| split; [| split]]]]].
-  - unfold wf_pomdp, wf_mdp, simplex, is_dist. cbn [pm nS nA gam P R nO Ob ex_pomdp length].
+  - unfold wf_pomdp1, wf_mdp1, simplex, is_dist. cbn [pm nS nA gam P R nO Ob ex_pomdp length].
     repeat split; try lia; try lra; try reflexivity.
     + intros [|[|a]] Ha; try lia; reflexivity.
     + destruct a as [|[|a]]; destruct s as [|[|s]]; try lia; reflexivity.
